@@ -300,6 +300,47 @@ theorem marked_packs_stay (typed : Bool) (kc : Consts) (o : Opts) (files : List 
       cases ht : p.todo <;> rw [ht] at hpid <;> simp at hpid
       exact ⟨p, hp', hpid, ht, tab.2.2.1 ht⟩
 
+/-- (4') **The normal index entry wins over a mark**: a pack that SOME index file lists normally — e.g. the packs of a backup
+that was still running when an earlier prune planned: uploaded, not yet indexed, therefore marked as unreferenced, and indexed
+when the backup finished — is treated as an unmarked pack by every accepted plan, whatever `packs_to_delete` entries exist for
+it and however old their mark is: it is never decided `Delete` / `KeepMarked`, with a used blob it is kept or repacked, and a
+non-instant prune does not remove its file.  (Seed C02-4 skipped the pass of `PrunePlan::new` that drops such marked entries
+unless the index had other duplicates; replayed by the `h<k>` … `e` histories.) -/
+theorem normal_index_entry_wins_over_mark (typed : Bool) (kc : Consts) (o : Opts) (files : List IndexFile) (used : List Key)
+    (existing : List (Nat × Nat)) (d : Decided) (h : plan typed kc o files used existing = some d)
+    (f : IndexFile) (hf : f ∈ files) (q : IndexPack) (hq : q ∈ f.packs) :
+    (∃ p ∈ d.packs, p.id = q.id) ∧
+    (∀ p ∈ d.packs, p.id = q.id → p.mark = false ∧ p.todo ≠ .delete ∧ p.todo ≠ .keepMarked ∧
+      p.todo ≠ .keepMarkedAndCorrect ∧ (0 < p.info.usedBlobs → p.todo = .keep ∨ p.todo = .repack)) ∧
+    (o.instantDelete = false → q.id ∉ (execute typed o d).removePacks) := by
+  obtain ⟨_, hc, _, _, _⟩ := plan_shape h
+  obtain ⟨hnd, _, _, _, _⟩ := newPlan_spec kc files
+  obtain ⟨p0, hp0, hid0, hm0⟩ := newPlan_normal_entry_unmarked kc files f hf q hq
+  have hunm : ∀ p ∈ d.packs, p.id = q.id → p.mark = false := by
+    intro p hp hpid
+    obtain ⟨p', hp', e⟩ := mem_of_core_eq hc hp
+    simp only [PPack.core, Prod.mk.injEq] at e
+    have : p' = p0 := eq_of_nodup_map (·.id) _ hnd p' hp' p0 hp0 (by simp only [e.2.2.1, hpid, hid0])
+    rw [← e.2.2.2.1, this, hm0]
+  have hall : ∀ p ∈ d.packs, p.id = q.id → p.mark = false ∧ p.todo ≠ .delete ∧ p.todo ≠ .keepMarked ∧
+      p.todo ≠ .keepMarkedAndCorrect ∧ (0 < p.info.usedBlobs → p.todo = .keep ∨ p.todo = .repack) := by
+    intro p hp hpid
+    have hm := hunm p hp hpid
+    have tab := decision_table typed kc o files used existing d h p hp
+    refine ⟨hm, ?_, ?_, ?_, fun hu => tab.2.2.2.2.2 hm hu⟩
+    · intro ht; have := (tab.2.2.1 ht).1; rw [hm] at this; cases this
+    · intro ht; have := (tab.2.2.2.1 (Or.inl ht)).1; rw [hm] at this; cases this
+    · intro ht; have := (tab.2.2.2.1 (Or.inr ht)).1; rw [hm] at this; cases this
+  refine ⟨?_, hall, ?_⟩
+  · have : p0.core ∈ d.packs.map PPack.core := by rw [hc]; exact List.mem_map_of_mem hp0
+    obtain ⟨p, hp, e⟩ := List.mem_map.mp this
+    simp only [PPack.core, Prod.mk.injEq] at e
+    exact ⟨p, hp, by rw [e.2.2.1, hid0]⟩
+  · intro hi hrem
+    obtain ⟨p, hp, hpid, _, hmark, _⟩ := (marked_packs_stay typed kc o files used existing d h hi).2 q.id hrem
+    rw [hunm p hp hpid] at hmark
+    cases hmark
+
 /-- (5) **Recover brings back**: a pack that is marked for deletion but holds a blob that is needed again is decided
 `Recover`, and executing the plan lists it — with all its blobs — in the *unmarked* section of the new index and does
 not remove it. -/
